@@ -479,8 +479,10 @@ SyncResult(C, fs0, fs1, par, now, opts, srcs) ==
        ELSE IF refused \/ small \/ lo > bm THEN [C |-> C, par |-> par, must |-> must, out |-> [exit |-> "refused", err |-> 0, silent |-> 0]]
        ELSE IF pre.skip THEN [C |-> IF ~opts.kill_after /\ (scanchg \/ pre.nconv > 0) THEN Normalize(pre.M) ELSE C, par |-> par, must |-> must,
                               out |-> [exit |-> "prehash-stop", err |-> 0, silent |-> pre.nmism]]
-       ELSE [C |-> IF opts.kill_after THEN presave
-                   ELSE IF (en = {} \/ (r.aborted /\ r.ndone = 0)) /\ ~scanchg /\ ~resized THEN C ELSE Normalize(r.M),
+       \* the state is written again at the end only when at least one stripe was gone through (need_write, sync.c:1289):
+       \* a run that stops at its very first stripe leaves what was saved before the stripes (also the hash that
+       \* sync.c:1017 had already stored in memory for that stripe is not saved then)
+       ELSE [C |-> IF opts.kill_after \/ en = {} \/ (r.aborted /\ r.ndone = 0) THEN presave ELSE Normalize(r.M),
              par |-> r.par, must |-> must,
              out |-> [exit |-> IF r.aborted THEN "abort" ELSE IF r.err + r.silent = 0 THEN "ok" ELSE "error",
                       err |-> r.err, silent |-> r.silent]]
@@ -538,7 +540,8 @@ CheckStripeX(C, fs, par, p, present0, ext) ==
     LET red == "reduced" \in DOMAIN ext /\ ext.reduced
         present == {l \in present0 : p + 1 <= Len(par[l])}      \* a parity file that is too short gives a read error
         blk == Eager([d \in D |-> BlockAt(C, d, p)])
-        files == {d \in D : HasFile(blk[d])}
+        \* check -a does not even open the files that the filters exclude (check.c:1040); ext.askip = [D -> excluded names]
+        files == {d \in D : HasFile(blk[d]) /\ ~("askip" \in DOMAIN ext /\ blk[d].n \in ext.askip[d])}
         rd == Eager([d \in D |-> IF d \in files THEN CheckRead(C, fs, d, blk[d]) ELSE [ok |-> TRUE, v |-> "Z"]])
         lens == Eager([d \in D |-> IF d \in files THEN BlkLen(C.cf[d][blk[d].n].sz, blk[d].i) ELSE BS])
         hashbad == {d \in files : rd[d].ok /\ blk[d].st \in {"BLK", "REP"} /\ HashOf(rd[d].v, lens[d]) # blk[d].h}
@@ -792,22 +795,29 @@ FixRangeX(C, fs0, par, present, sel, rg, ext) == FixRangeF(C, fs0, par, present,
 FixRange(C, fs0, par, present, sel, rg) == FixRangeX(C, fs0, par, present, sel, rg, NoExt)
 FixResult(C, fs0, par, present, sel) == FixRange(C, fs0, par, present, sel, <<>>)
 
-CheckResultX(C, fs, par, present, audit, rg, ext) ==
+(* check under the filters of FilterOf (the same selection as fix): only the enabled stripes are processed, check -a skips the
+   excluded files, empty files are looked at only when selected *)
+CheckResultF(C, fs, par, present, audit, rg, ext0, flt) ==
     LET bm == AllocatedMax(C)
-        rng == RangeOf(rg, bm)
+        CI == WithIndex(C)
+        rng == {p \in RangeOf(rg, bm) : FilterEnabled(CI, flt, p)}
+        ext == IF audit THEN [askip |-> flt.ex] @@ ext0 ELSE ext0
         R == CheckRangeX(C, fs, par, IF audit THEN {} ELSE present, rng, ext)
-        derr == {<<p, d>> \in (0..(bm - 1)) \X D : d \in R[p].bad} \cup {y \in SizeErrors(C, fs) : y[1] \in rng}
+        sizeerr == {y \in SizeErrors(C, fs) : y[1] \in rng /\ BlockAt(CI, y[2], y[1]).n \notin flt.ex[y[2]]}
+        derr == {<<p, d>> \in (0..(bm - 1)) \X D : d \in R[p].bad} \cup sizeerr
         perr == {<<p, l>> \in (0..(bm - 1)) \X Levels : l \in R[p].perr \cup R[p].rderr}
         nunrec == Cardinality({p \in 0..(bm - 1) : R[p].bad # {} /\ (~R[p].ok \/ R[p].ood # {})})
         \* empty files (like links and empty directories) are looked at after the stripes, inside state_check_process, which is
         \* not entered at all when there is no stripe to process (check.c:2051 "skip degenerated cases")
         missing0 == {<<d, n>> \in UNION {{<<d, n>> : n \in DOMAIN C.cf[d]} : d \in D} :
-                        rng # {} /\ C.cf[d][n].sz = 0 /\ (n \notin DOMAIN fs[d] \/ fs[d][n].sz # 0)}
+                        RangeOf(rg, bm) # {} /\ n \notin flt.ex[d] /\ C.cf[d][n].sz = 0 /\ (n \notin DOMAIN fs[d] \/ fs[d][n].sz # 0)}
     IN IF "bstart" \in DOMAIN rg /\ rg.bstart > bm THEN [exit |-> "none", derr |-> {}, perr |-> {}, nunrec |-> 0] ELSE
        [exit |-> IF audit THEN (IF derr = {} /\ missing0 = {} THEN "ok" ELSE "error")
                  ELSE IF nunrec # 0 THEN "unrecoverable"
                  ELSE IF derr = {} /\ perr = {} /\ missing0 = {} THEN "ok" ELSE "recoverable",
         derr |-> derr, perr |-> perr, nunrec |-> nunrec]
+NoFilterOf(C) == [ex |-> [d \in D |-> {}], pex |-> {}, bad |-> "no", synced |-> FALSE]
+CheckResultX(C, fs, par, present, audit, rg, ext) == CheckResultF(C, fs, par, present, audit, rg, ext, NoFilterOf(C))
 
 CheckResultR(C, fs, par, present, audit, rg) == CheckResultX(C, fs, par, present, audit, rg, NoExt)
 CheckResult(C, fs, par, present, audit) == CheckResultR(C, fs, par, present, audit, <<>>)
